@@ -1,8 +1,211 @@
 import Driver.Proto
-namespace Driver.C15
+import AdaptaVerif.Model.Lifecycle
+/-!
+Driver mode c15.
 
-def run (_args : List String) : IO UInt32 := do
-  IO.eprintln "driver mode c15: not implemented yet"
-  return 2
+`router-hist` / `kf-*` cases: every `op` line of the harness is translated to a `Model.Lifecycle.Op`,
+checked against the model's decidable `Legal` (the generator must only emit strictly legal histories —
+the hypothesis of the theorems in Props/C15.lean) and applied with `step`.  After every operation the
+harness prints the router's public live sets; they are compared with the model:
+
+* `os` / `oj` / `oc`  ids in `Router::m_obstacles` (shapes / junctions) and `Router::connRefs`
+                      = the model's *active* shapes / junctions / connectors            (DIVERGE)
+* `oe c a b`          anchors of connector c's ends = the model's attached ends          (DIVERGE)
+* `oa o n`            `Obstacle::attachedConnectors().size()` = ends attached in the model (DIVERGE)
+* the observed state itself must satisfy the spec: no id twice in a list, every anchor reported by
+  `oe` is a member of `m_obstacles` (a connector end naming an obstacle the router no longer holds is
+  a dangling reference)                                                                  (SPECFAIL)
+* a completed history (the harness aborts on a LeakSanitizer report, so completion means "no leak")
+  for which the model predicts unreleased objects, or a model fault on a strictly legal history,
+  is a DIVERGE.
+
+Other tags (vpsc-hist, cola-hist, topology-hist, dialect-hist): the runtime half only; the driver
+checks the harness' own ownership book-keeping (`own <what> <allocated> <freed>` must balance) and
+collects statistics.  CRASH verdicts (sanitizer report, assertion, leak) come from check.py.
+-/
+namespace Driver.C15
+open Driver AdaptaVerif.Model.Lifecycle
+
+/-- parse a ConnEnd description starting at token i: `P x y` or `A obj cls`; returns (spec, next index) -/
+def parseEnd (ts : Array String) (i : Nat) : Option (EndSpec × Nat) :=
+  match ts[i]? with
+  | some "P" => some (none, i + 3)
+  | some "A" => some (some ⟨nat! (ts[i+1]?.getD "0"), nat! (ts[i+2]?.getD "0")⟩, i + 3)
+  | _ => none
+
+/-- `op` line (without the leading keyword) ↦ model operation; `none` = no lifetime effect -/
+def parseOp (ts : Array String) : Except String (Option Op) :=
+  let n (i : Nat) : Nat := nat! (ts[i]?.getD "0")
+  match ts[0]? with
+  | some "newShape" => .ok (some (.newShape (n 1)))
+  | some "newJunction" => .ok (some (.newJunction (n 1) (n 2)))
+  | some "newPin" => .ok (some (.newPin (n 1) (n 2) (n 3)))
+  | some "newConn" =>
+    match parseEnd ts 3 with
+    | some (a, j) =>
+      match parseEnd ts j with
+      | some (b, _) => .ok (some (.newConn (n 1) a b (n 2 == 1)))
+      | none => .error "bad newConn dst"
+    | none => .error "bad newConn src"
+  | some "setEndpoint" =>
+    match parseEnd ts 3 with
+    | some (e, _) => .ok (some (.setEndpoint (n 1) (n 2 == 1) e))
+    | none => .error "bad setEndpoint"
+  | some "deleteShape" => .ok (some (.deleteShape (n 1)))
+  | some "deleteJunction" => .ok (some (.deleteJunction (n 1)))
+  | some "deleteConn" => .ok (some (.deleteConn (n 1)))
+  | some "deletePin" => .ok (some (.deletePin (n 1)))
+  | some "moveShape" => .ok (some (.moveShape (n 1)))
+  | some "moveJunction" => .ok (some (.moveJunction (n 1)))
+  | some "processTransaction" => .ok (some .processTransaction)
+  | some "setTransactionUse" => .ok (some (.setTransactionUse (n 1 == 1)))
+  | some "deleteRouter" => .ok (some .deleteRouter)
+  | some "registerHyperedge" => .ok none
+  | some x => .error s!"unknown op {x}"
+  | none => .error "empty op"
+
+def parseHyper (ts : Array String) : Except String Op :=
+  let n (i : Nat) : Nat := nat! (ts[i]?.getD "0")
+  match ts[0]? with
+  | some "dc" => .ok (.rDelConn (n 1))
+  | some "dj" => .ok (.rDelJunction (n 1))
+  | some "nj" => .ok (.rNewJunction (n 1) (n 2))
+  | some "nc" => .ok (.rNewConn (n 1))
+  | _ => .error "bad hyper line"
+
+def sortNat (l : List Nat) : List Nat := (l.toArray.qsort (· < ·)).toList
+
+def hasDup : List Nat → Bool
+  | [] => false
+  | x :: xs => xs.contains x || hasDup xs
+
+def anchorOf (e : End) : Int := match e with | some x => (x.anchor : Int) | none => -1
+def endsOn (s : St) (o : Id) : Nat :=
+  s.conns.foldl (fun k c => k + (if endOn c.src o then 1 else 0) + (if endOn c.dst o then 1 else 0)) 0
+
+def opName : Op → String
+  | .newShape _ => "newShape" | .newJunction .. => "newJunction" | .newConn .. => "newConn"
+  | .newPin .. => "newPin" | .deleteShape _ => "deleteShape" | .deleteJunction _ => "deleteJunction"
+  | .deleteConn _ => "deleteConn" | .deletePin _ => "deletePin" | .moveShape _ => "moveShape"
+  | .moveJunction _ => "moveJunction" | .setEndpoint .. => "setEndpoint"
+  | .processTransaction => "processTransaction" | .setTransactionUse _ => "setTransactionUse"
+  | .deleteRouter => "deleteRouter" | .rDelConn _ => "rDelConn" | .rDelJunction _ => "rDelJunction"
+  | .rNewJunction .. => "rNewJunction" | .rNewConn _ => "rNewConn"
+
+structure Acc where
+  s : St := init
+  err : Option Verdict := none
+  nops : Nat := 0
+  illegal : Nat := 0              -- ops outside `Legal` (allowed for kf-* tags only)
+  routerMade : List Nat := []     -- connectors created by the router (ends unknown to the model)
+  obsS : List Nat := []           -- last observed m_obstacles ids (shapes ++ junctions) of the current block
+  stats : List (String × Nat) := []
+  deletes : Nat := 0
+  queuedAtDestroy : Bool := false
+  offOps : Nat := 0
+
+def Acc.fail (a : Acc) (v : Verdict) : Acc := if a.err.isSome then a else { a with err := some v }
+
+def natsOf (ts : Array String) : List Nat := (ts.toList.map nat!)
+
+def applyOp (kf : Bool) (a : Acc) (op : Op) (txt : String) : Acc :=
+  let legal := Legal a.s op
+  let a := if legal then a else
+    if kf then { a with illegal := a.illegal + 1 }
+    else a.fail (.diverge s!"generator emitted an operation that is not strictly legal in the model (op #{a.nops + 1}: {txt})")
+  let s' := step a.s op
+  let a := { a with s := s', nops := a.nops + 1, stats := bumpStats a.stats ("op." ++ opName op) 1 }
+  let a := if !a.s.consolidate then { a with offOps := a.offOps + 1 } else a
+  let a := match op with
+    | .deleteShape _ | .deleteJunction _ | .deleteConn _ | .deletePin _ => { a with deletes := a.deletes + 1 }
+    | .rNewConn c => { a with routerMade := c :: a.routerMade }
+    | _ => a
+  if !kf && s'.faults != [] && legal then
+    a.fail (.diverge s!"model reports a fault on a strictly legal history after op #{a.nops}: {txt}")
+  else a
+
+def checkCaseRouter (c : Case) : CaseResult :=
+  let kf := c.tag.startsWith "kf-"
+  let a := c.lines.foldl (init := ({} : Acc)) fun a l =>
+    if a.err.isSome then a else
+    let key := l[0]!
+    let rest := l.extract 1 l.size
+    if key == "op" then
+      match parseOp rest with
+      | .error e => a.fail (.diverge s!"unparsable op line: {e}")
+      | .ok none => { a with nops := a.nops + 1 }
+      | .ok (some op) =>
+        let a := if op == .deleteRouter then { a with queuedAtDestroy := !a.s.actions.isEmpty } else a
+        applyOp kf a op (" ".intercalate rest.toList)
+    else if key == "hyper" then
+      match parseHyper rest with
+      | .error e => a.fail (.diverge e)
+      | .ok op => applyOp kf a op ("hyper " ++ " ".intercalate rest.toList)
+    else if kf && a.s.faults != [] then a     -- after the model's fault point nothing is compared
+    else if key == "os" || key == "oj" then
+      let impl := natsOf rest
+      let model := sortNat ((a.s.obst.filter (fun o => o.active && (o.junction == (key == "oj")))).map (·.id))
+      let a := if key == "os" then { a with obsS := impl } else { a with obsS := a.obsS ++ impl }
+      if hasDup impl then a.fail (.specfail s!"after op #{a.nops}: id listed twice in Router::m_obstacles: {impl}")
+      else if impl != model then
+        a.fail (.diverge s!"after op #{a.nops}: m_obstacles {key} = {impl}, model active set = {model}")
+      else a
+    else if key == "oc" then
+      let impl := natsOf rest
+      let model := sortNat ((a.s.conns.filter (·.active)).map (·.id))
+      if hasDup impl then a.fail (.specfail s!"after op #{a.nops}: id listed twice in Router::connRefs: {impl}")
+      else if impl != model then
+        a.fail (.diverge s!"after op #{a.nops}: connRefs = {impl}, model active connectors = {model}")
+      else a
+    else if key == "oe" then
+      let cid := nat! (rest[0]?.getD "0")
+      let ia := int! (rest[1]?.getD "-1")
+      let ib := int! (rest[2]?.getD "-1")
+      -- spec on the implementation's own state: an anchored end names a member of m_obstacles
+      let dangling (x : Int) : Bool := x ≥ 0 && !(a.obsS.contains x.toNat)
+      if dangling ia || dangling ib then
+        a.fail (.specfail s!"after op #{a.nops}: connector {cid} has an end anchored at an obstacle that is not in m_obstacles ({ia}, {ib})")
+      else if a.routerMade.contains cid || ia == -2 then a
+      else match a.s.conns.find? (·.id == cid) with
+        | none => a.fail (.diverge s!"after op #{a.nops}: connector {cid} unknown to the model")
+        | some mc =>
+          if anchorOf mc.src != ia || anchorOf mc.dst != ib then
+            a.fail (.diverge s!"after op #{a.nops}: connector {cid} anchors ({ia},{ib}), model ({anchorOf mc.src},{anchorOf mc.dst})")
+          else a
+    else if key == "oa" then
+      if !a.routerMade.isEmpty then a else
+      let o := nat! (rest[0]?.getD "0")
+      let n := nat! (rest[1]?.getD "0")
+      if endsOn a.s o != n then
+        a.fail (.diverge s!"after op #{a.nops}: obstacle {o} has {n} attached connector ends, model {endsOn a.s o}")
+      else a
+    else a
+  let a :=
+    if a.err.isSome then a
+    else if a.s.alive then a.fail (.diverge "history did not end with deleteRouter")
+    else if !kf && a.s.leaked != [] then
+      a.fail (.diverge s!"history completed without a leak report but the model predicts unreleased objects {a.s.leaked}")
+    else a
+  let stats := a.stats
+  let stats := bumpStats stats "ops" a.nops
+  let stats := if a.queuedAtDestroy then bumpStats stats "destroyed_with_queued_actions" 1 else stats
+  let stats := if a.offOps > 0 then bumpStats stats "cases_with_transactions_off" 1 else stats
+  let stats := if a.s.faults != [] then bumpStats stats "model_faults" 1 else stats
+  let stats := bumpStats stats "model_freed_objects" a.s.freed.length
+  { verdict := a.err.getD .ok, nontrivial := a.nops ≥ 5 && a.deletes ≥ 1, stats := stats }
+
+def checkCaseLib (c : Case) : CaseResult :=
+  let ops := (c.get "op").size
+  let bad := (c.get "own").filter (fun l => l.size < 3 || l[1]! != l[2]!)
+  let stats := [("ops", ops), ("lib_exceptions_caught", (c.get "exc").size)]
+  if bad.size > 0 then
+    { verdict := .diverge s!"harness ownership book-keeping does not balance: {bad[0]!}", stats := stats }
+  else if ops == 0 then { verdict := .diverge "case without operations", stats := stats }
+  else { verdict := .ok, nontrivial := ops ≥ 3, stats := stats }
+
+def checkCase (c : Case) : CaseResult :=
+  if c.tag == "router-hist" || c.tag.startsWith "kf-" then checkCaseRouter c else checkCaseLib c
+
+def run (_args : List String) : IO UInt32 := runCases checkCase
 
 end Driver.C15
